@@ -145,7 +145,7 @@ pub fn classify(p: &Program) -> String {
         if p.validate_layout {
             match rssl::ir::layout_checker::check_layout(&ir) {
                 Ok(()) => {}
-                Err(rssl::ir::layout_checker::LayoutError::UnknownLayout(_)) => return "layout:UnknownLayout".to_string(),
+                Err(rssl::ir::layout_checker::LayoutError::UnknownLayout(..)) => return "layout:UnknownLayout".to_string(),
                 Err(rssl::ir::layout_checker::LayoutError::MismatchedLayout(..)) => return "layout:MismatchedLayout".to_string(),
             }
         }
